@@ -149,3 +149,62 @@ def truth_table(fn: FunctionInfo, atoms: Sequence[str], atom_of: AtomFn) -> Dict
         env = dict(zip(atoms, vals))
         table[vals] = [o for o in outs if all(env.get(k, v) == v for k, v in o.literals.items())]
     return table
+
+
+@dataclass
+class CallView:
+    literals: Dict[str, bool]
+    unknown: List[str]
+    call: ast.Call  # the call as written
+    args: List[ast.AST]  # positional arguments with the locals bound on this path substituted
+    keywords: Dict[str, ast.AST]
+    node: CNode
+
+
+def call_views(fn: FunctionInfo, atom_of: AtomFn, pred: Callable[[ast.Call], bool], max_nodes: int = 80) -> Tuple[List[CallView], int]:
+    """Path-sensitive view of selected call sites: for every consistent entry->exit path, every call accepted by `pred` with its
+    arguments rewritten by the pure local bindings in force on that path (parameters re-bound on the path included).  Returns the
+    views and the number of consistent paths that reach an exit WITHOUT passing any such call."""
+    cfg = cfg_of(fn)
+    if len(cfg.nodes) > max_nodes:
+        raise AnalysisError(f"{fn.short} too large for a path view ({len(cfg.nodes)} nodes)")
+    views: List[CallView] = []
+    without = 0
+    for path in cfg.paths(max_visits=1):
+        lits: Dict[str, bool] = {}
+        unknown: List[str] = []
+        env: Dict[str, ast.AST] = {}
+        consistent = True
+        mine: List[CallView] = []
+        for n, lab in path:
+            if n.ast is not None and n.kind in ("stmt", "test"):
+                for c in ast.walk(n.ast):
+                    if isinstance(c, ast.Call) and pred(c):
+                        mine.append(CallView(lits, unknown, c, [_subst(a, env) for a in c.args], {k.arg: _subst(k.value, env) for k in c.keywords if k.arg}, n))
+            if n.kind == "stmt" and isinstance(n.ast, ast.Assign) and len(n.ast.targets) == 1:
+                _bind(env, n.ast.targets[0], n.ast.value, ())
+            elif n.kind == "stmt" and isinstance(n.ast, ast.AnnAssign) and n.ast.value is not None:
+                _bind(env, n.ast.target, n.ast.value, ())
+            elif n.kind == "stmt" and isinstance(n.ast, (ast.AugAssign, ast.AnnAssign, ast.For, ast.With, ast.Delete)):
+                for x in ast.walk(n.ast):
+                    if isinstance(x, ast.Name) and isinstance(x.ctx, (ast.Store, ast.Del)):
+                        env.pop(x.id, None)
+            if n.kind == "test" and lab in ("true", "false"):
+                t_ast = _subst(n.ast, env) if env else n.ast
+                a = atom_of(t_ast)  # type: ignore[arg-type]
+                if a is None:
+                    unknown.append(norm(t_ast))
+                    continue
+                name, pol = a
+                val = (lab == "true") == pol
+                if name in lits and lits[name] != val:
+                    consistent = False
+                    break
+                lits[name] = val
+        if not consistent:
+            continue
+        end, _ = path[-1]
+        if end is cfg.exit and not mine:
+            without += 1
+        views.extend(mine)
+    return views, without
